@@ -115,8 +115,8 @@ func OracleC18(tr *Trace) Verdict {
 			}
 		}
 	}
-	// follower convergence: a started follower that has known some leader converges to the id in the live
-	// record. Watch events may be lost (the 500ms periodic check is the fallback); the instance itself must be
+	// follower convergence: a started follower converges to the id in the live record - also one that has
+	// never known a leader (its Watch() calls failed, or no event reached it). Watch events may be lost (the 500ms periodic check is the fallback); the instance itself must be
 	// able to reach the store. W = two periodic checks + the largest watch delay + two round trips.
 	{
 		var maxWD time.Duration
@@ -136,7 +136,14 @@ func OracleC18(tr *Trace) Verdict {
 				if si.LeaderID != "" {
 					knew[si.Obj] = true
 				}
-				if !si.Started || si.InStop || si.IsLeader || !knew[si.Obj] || p.instFaulted(si.Inst) {
+				if !si.Started || si.InStop || si.IsLeader || p.instFaulted(si.Inst) {
+					continue
+				}
+				// The watch loop takes one thing at a time, choosing at random between a pending periodic check
+				// and a pending event. When a store round trip is not well below the 500ms check interval a
+				// check is nearly always pending, an event can wait behind an unbounded number of them, and each
+				// stale event sets the id back until the next check: no bound to judge against.
+				if p.InstMaxRTT(si.Inst) > 200*time.Millisecond {
 					continue
 				}
 				key := p.Instances[si.Inst].Group
@@ -170,6 +177,19 @@ func OracleC18(tr *Trace) Verdict {
 					continue
 				}
 				if since < 0 || s.T-since < W {
+					continue
+				}
+				// The watch loop handles one thing at a time: every event that was still on its way when the
+				// record settled may be preceded by a periodic check (one store round trip each), and a stale
+				// event sets the leader id back until the next check. With a slow store the backlog drains
+				// accordingly more slowly.
+				backlog := 0
+				for _, w := range tr.WatchEvs {
+					if w.Obj == si.Obj && !w.Dropped && w.T >= since-maxWD && w.T <= s.T {
+						backlog++
+					}
+				}
+				if s.T-since < W+time.Duration(backlog)*(p.MaxRTT()+time.Millisecond) {
 					continue
 				}
 				followerSince := time.Duration(-1)
